@@ -4,5 +4,5 @@ func init() {
 	reg("C11", propCfg{Pkg: "./props/c11", Rule: "reference conversion table (Go conversion syntax) and recording reflect.MakeFunc hosts vs anko",
 		Assumptions: assume(
 			"the reference table props/c11/conv.go encodes Go's conversion rules: identity for interface{}, numeric conversions, integer->string rune strings, string<->[]byte/[]rune, element-wise slices/arrays/maps, zero value for nil, error otherwise",
-			"not asserted (statement silent): one-character string -> byte/rune, pointer re-typing, float outside the target integer range, surplus spread elements, spread into a fixed slot of a variadic function, more callback results than declared")})
+			"not asserted beyond \"no host panic\" (statement silent): one-character string -> byte/rune, pointer vs non-pointer and non-nil pointer re-typing, float outside the target integer range, integer -> float32 where one- and two-step rounding differ, surplus spread elements and arguments of parameterless functions (dropped, pinned by the repository's tests), spread value landing in a fixed slot of a variadic function, more callback results than declared, script callbacks of another arity, field writes through non-pointer receivers")})
 }
